@@ -1053,7 +1053,10 @@ def addr_program(draw):
                     named = awords and draw(st.booleans())
                     if named:
                         a = "A%d" % len(actors)
-                        names[a] = awords.pop()
+                        # an actor name may have several parts: `as wolf x y` -> WolfXY -> path segments wolf.x.y;
+                        # the parts are one name (renamed as a whole); such actors are not referenced by name elsewhere
+                        suffix = draw(st.sampled_from(["", "", "", " x", " x y", " big", " b c d", " nav x"]))
+                        names[a] = awords.pop() + suffix
                         entities.append(("actor", a))
                         t += ["as", "{%s}" % a]
                     dctx = dict(ctx, do=True)
@@ -1068,7 +1071,7 @@ def addr_program(draw):
                         forms.append("from:" + f1)
                         t += ["from"] + r1
                     lines.append([6, t])
-                    if named:
+                    if named and not suffix:
                         actors.append((a, i, ns))
         if not moot_flags[i]:
             lines.append([6, ["bid", "stop", draw(st.sampled_from(["me", "{%s}" % fs]))]])
